@@ -101,6 +101,67 @@ class Ctx:
                 return n
         return prog.fold(_ast.fix_missing_locations(T().visit(rec(e))), m, c)
 
+    def model_calls(self, extra=None, sym_map=None, max_depth: int = 4):
+        """A call_value for the evaluator that steps INTO methods of the analysed program: a call `obj.m(args)` whose receiver is a model
+        object tagged with its class (Obj(_cls=<ClassInfo>)) evaluates the body of the method the MRO selects, on the same model
+        (interprocedural finite-model evaluation; properties with a single `return` are read the same way via model_attr).
+        `extra(call, evaluator)` models the leaves (ciphers, hashes, ...) and takes precedence."""
+        import ast as _ast
+        from .core import astutil as _A
+        from .engines import ordereval as _oe
+        prog = self.prog
+        ctx = self
+
+        def run_method(m, recv, call, ev, depth):
+            params = [a.arg for a in m.node.args.args]
+            is_static = any(isinstance(d, _ast.Name) and d.id == "staticmethod" for d in m.node.decorator_list)
+            env = {}
+            names = params if is_static else params[1:]
+            if not is_static and params:
+                env[params[0]] = recv
+            if len(call.args) > len(names):
+                return _oe.NOT_MODELLED
+            for n_, a in zip(names, call.args):
+                env[n_] = ev.ev(a)
+            for k in call.keywords:
+                if k.arg is None or k.arg not in names + [a.arg for a in m.node.args.kwonlyargs]:
+                    return _oe.NOT_MODELLED
+                env[k.arg] = ev.ev(k.value)
+            defaults = dict(zip(params[len(params) - len(m.node.args.defaults):], m.node.args.defaults))
+            for a, d in zip(m.node.args.kwonlyargs, m.node.args.kw_defaults):
+                if d is not None:
+                    defaults[a.arg] = d
+            for n_ in names + [a.arg for a in m.node.args.kwonlyargs]:
+                if n_ not in env:
+                    if n_ not in defaults:
+                        return _oe.NOT_MODELLED
+                    env[n_] = _oe.Evaluator({}, ctx.fold_sym(m, sym_map)).ev(defaults[n_])
+            sub = _oe.Evaluator(env, ctx.fold_sym(m, sym_map), opaque_return=False, call_value=lambda c2, e2: cv(c2, e2, depth + 1))
+            out = sub.run(_A.body_of(m.node))
+            if out.kind == "raise":
+                raise _oe.ModelRaise(out)
+            return out.value if out.kind == "return" else None
+
+        def cv(call, ev, depth=0):
+            if extra is not None:
+                v = extra(call, ev)
+                if v is not _oe.NOT_MODELLED:
+                    return v
+            if depth >= max_depth or not isinstance(call.func, _ast.Attribute):
+                return _oe.NOT_MODELLED
+            try:
+                recv = ev.ev(call.func.value)
+            except _oe.Unsupported:
+                return _oe.NOT_MODELLED
+            k = recv.__dict__.get("_cls") if isinstance(recv, _oe.Obj) else None
+            if k is None:
+                return _oe.NOT_MODELLED
+            m = prog.find_method(k, call.func.attr)
+            if m is None:
+                return _oe.NOT_MODELLED
+            return run_method(m, recv, call, ev, depth)
+        return cv
+
     def prop_inline(self, fn, e, depth: int = 2):
         """`self.X` / `cls.X` where X is a property of fn's class (MRO) whose body is a single `return <expr>` is replaced by <expr>."""
         import ast as _ast
@@ -128,7 +189,7 @@ class Ctx:
         import ast as _ast
         from .core.report import norm as _norm
         from .core.symtab import UNKNOWN as _UNK
-        mapping = mapping or {}
+        mapping = dict({"Endianness.LITTLE.value": "little", "Endianness.BIG.value": "big"}, **(mapping or {}))
         prog = self.prog
 
         def sym(x):
